@@ -36,16 +36,17 @@ def experiment_level(ctx, nexp):
              # one stateful learner for two environments that share a chunk, on worker processes: each evaluation starts from the pristine learner
              dict(envs=[["group", 0, 0], ["group", 0, 1]], lrns=[["count", 1], ["kwargs"]], vals=[["seq"]], groups=[dict(n=8, seed=6, prefix="chunk", fan=2)], triples=[[0, 0, 0], [1, 0, 0], [0, 1, 0], [1, 1, 0]], conf=(2, 0, 0)),
              # one RejectionCB object for logged environments with different logging propensities
-             dict(envs=[["group", 0, 0]] + [["group", 1, k] for k in range(10)], lrns=[["skew"]], vals=[["rej", 7], ["rej", 2]],
-                  groups=[dict(n=40, seed=3, prefix=None, fan=1, logged=True, logger="eps", na=2), dict(n=40, seed=4, prefix=None, fan=10, logged=True, na=3)],
-                  triples=[[k, 0, v] for v in range(2) for k in range(11)], conf=(1, 0, 0))]
+             dict(envs=[["group", 0, 0]] + [["group", 1, k] for k in range(4)], lrns=[["skew"]], vals=[["rej", 7], ["rej", 2]],
+                  groups=[dict(n=40, seed=3, prefix=None, fan=1, logged=True, logger="eps", na=2), dict(n=40, seed=4, prefix=None, fan=4, logged=True, na=3)],
+                  triples=[[k, 0, v] for v in range(2) for k in range(5)], conf=(1, 0, 0))]
     for _ in range(nexp): specs.append(expcore.gen_spec(rng, failures=True, batched=True))
     jobs, index = [], []
     for si, spec in enumerate(specs):
         conf = tuple(spec["conf"]) if spec.get("conf") else (1, 0, 0) if si < 4 else rng.choice([(1, 0, 0), (1, 0, 0), (1, 0, 2), (2, 0, 0)])
         jobs.append(dict(spec=spec, p=conf[0], mc=conf[1], mt=conf[2], seed=1)); index.append((si, None, conf))
         for ti in range(len(spec["triples"])):
-            jobs.append(dict(spec=spec, p=1, mc=1, mt=0, seed=1, only=ti)); index.append((si, ti, (1, 1, 0)))
+            mc = 1 if (ti + si) % 3 == 0 else 0      # alone in a fresh worker process (every third triple) or alone in-process: both are 'a pristine copy, alone'
+            jobs.append(dict(spec=spec, p=1, mc=mc, mt=0, seed=1, only=ti)); index.append((si, ti, (1, mc, 0)))
     done, hung, err = expcore.run_jobs(jobs, "c03")
     whole = {}
     for j, (si, ti, conf) in enumerate(index):
